@@ -195,7 +195,23 @@ def allChain (f : Val → Bool) : Val → Bool
   | .nil => true
   | _ => false
 
+/-- a length field of a record and the bytes after it: the length of the content, or a
+    non-positive value with no content (null / empty) -/
+def lenOk (n : Int) (b : Bytes) : Bool := (decide (n = b.length) && inRange 64 n) || (decide (n ≤ 0) && b.isEmpty && inRange 64 n)
+
+def conformsHeader : Val → Bool
+  | .cons (.int kl) (.cons (.str k) (.cons (.int vl) (.cons (.str v) .nil))) => lenOk kl k && lenOk vl v
+  | _ => false
+
+def conformsRec : Val → Bool
+  | .cons (.int len) (.cons (.int at_) (.cons (.int ts) (.cons (.int off) (.cons (.int kl) (.cons (.str k)
+      (.cons (.int vl) (.cons (.str v) (.cons (.arr hs) .nil)))))))) =>
+    inRange 64 len && inRange 8 at_ && inRange 64 ts && inRange 64 off && lenOk kl k && lenOk vl v && allChain conformsHeader hs &&
+      inRange 64 (hs.chainLen : Int)
+  | _ => false
+
 def conformsPrim : Prim → Val → Bool
+  | .recordV0, v => conformsRec v
   | .bool, .bool _ => true
   | .int8, .int i => inRange 8 i
   | .int16, .int i => inRange 16 i
